@@ -19,6 +19,8 @@
 //	    a raw value built field by field (nil tokens, end elements, marshal-only values).
 //	(prop dp|pd <tag> <resp code> ((<code> <raw>...)...)) (obs (sel <id>)|notfound|other|panic)
 //	    Response.DecodeProp / Prop.Decode into a struct whose XMLName tag is <tag>.
+//	(propm (<tag>...) <resp code> ((<code> <raw>...)...)) (obs (sels <id>...)|notfound|other|panic)
+//	    Response.DecodeProp(v1, ..., vk) with several values.
 //	(name <tag>) (obs (ok <space> <local>)|err)
 //	    valueXMLName.
 package main
@@ -708,6 +710,75 @@ func propLine(c *propCase) string {
 	return c.sx() + " " + hx.L("obs", obs)
 }
 
+// propmLine: Response.DecodeProp(v1, ..., vk) with several values.
+//   (propm ((tag ..)|(none ..) ...) rc ((code raw...) ...)) (obs (sels id...)|notfound|other|panic)
+func propmSx(tags []tagSpec, c *propCase) string {
+	var ts []string
+	for _, t := range tags {
+		ts = append(ts, t.sx())
+	}
+	var pss []string
+	for _, p := range c.pss {
+		items := []string{hx.I(int64(p.code))}
+		for _, r := range p.raws {
+			items = append(items, r.sx())
+		}
+		pss = append(pss, hx.L(items...))
+	}
+	rc := "-"
+	if c.code >= 0 {
+		rc = hx.I(int64(c.code))
+	}
+	return hx.L("propm", hx.L(ts...), rc, hx.L(pss...))
+}
+
+func propmLine(tags []tagSpec, c *propCase) string {
+	var vs []interface{}
+	for _, t := range tags {
+		vs = append(vs, t.value())
+	}
+	obs := "other"
+	func() {
+		defer func() {
+			if r := recover(); r != nil {
+				obs = "panic"
+			}
+		}()
+		resp := verifhook.Response{}
+		if c.code >= 0 {
+			resp.Status = &verifhook.Status{Code: c.code}
+		}
+		for _, p := range c.pss {
+			var raws []RawXMLValue
+			for _, r := range p.raws {
+				raws = append(raws, r.build())
+			}
+			resp.PropStats = append(resp.PropStats, verifhook.PropStat{
+				Prop:   verifhook.Prop{Raw: raws},
+				Status: verifhook.Status{Code: p.code},
+			})
+		}
+		err := resp.DecodeProp(vs...)
+		switch {
+		case err == nil:
+			ids := []string{"sels"}
+			for _, v := range vs {
+				id := ""
+				if f := reflect.ValueOf(v).Elem(); f.Kind() == reflect.Struct {
+					if idf := f.FieldByName("ID"); idf.IsValid() {
+						id = idf.String()
+					}
+				}
+				ids = append(ids, hx.S(id))
+			}
+			obs = hx.L(ids...)
+		case verifhook.IsNotFound(err):
+			obs = "notfound"
+		}
+	}()
+	return propmSx(tags, c) + " " + hx.L("obs", obs)
+}
+
 // ---------------------------------------------------------------- main
 
 func main() {
@@ -743,6 +814,23 @@ func main() {
 				sink.Put(rawLine(parseRspec(a[0])))
 			case "prop":
 				sink.Put(propLine(parsePropCase(in)))
+			case "propm":
+				var tags []tagSpec
+				for _, t := range a[0].List {
+					tags = append(tags, parseTagSpec(t))
+				}
+				c := &propCase{how: "dp", code: -1}
+				if a[1].Atom != "-" {
+					c.code = int(a[1].Int())
+				}
+				for _, p := range a[2].List {
+					ps := pstat{code: int(p.List[0].Int())}
+					for _, r := range p.List[1:] {
+						ps.raws = append(ps.raws, parseRspec(r))
+					}
+					c.pss = append(c.pss, ps)
+				}
+				sink.Put(propmLine(tags, c))
 			case "name":
 				sink.Put(nameLine(parseTagSpec(a[0])))
 			default:
@@ -755,7 +843,11 @@ func main() {
 
 	jobs := make(chan func() string, 1024)
 	var wg sync.WaitGroup
-	for w := 0; w < runtime.NumCPU(); w++ {
+	nw := runtime.NumCPU()
+	if nw > 8 {
+		nw = 8 // the machine is shared
+	}
+	for w := 0; w < nw; w++ {
 		wg.Add(1)
 		go func() {
 			defer wg.Done()
